@@ -17,6 +17,10 @@ use serde_json::{json, Value};
 pub struct C19 {
 	gen: HistGen,
 	queries: u64,
+	/// reading of the amount bounds the wallet was seen to apply -> example
+	amount_readings: std::collections::BTreeMap<String, String>,
+	queue: Vec<Step>,
+	cancelled_sends_left: u32,
 }
 
 #[derive(Clone, Copy, PartialEq, Debug)]
@@ -184,16 +188,31 @@ impl C19 {
 		cfg.boundary_args = false;
 		cfg.w_new_invoice += 2;
 		let gen = HistGen::new(cfg, run);
-		C19 { gen, queries: 0 }
+		let cancelled_sends_left = run.rng.below(3) as u32;
+		C19 { gen, queries: 0, amount_readings: Default::default(), queue: vec![], cancelled_sends_left }
 	}
 
 	fn gen_query(run: &mut Run, w: usize) -> Value {
 		let snap = run.ex.world.snap(w);
 		let r = &mut run.rng;
 		let txs = &snap.txs;
+		// anchors for the bounds: any entry, with a bias towards the rarer kinds
+		// (cancelled, reverted) so that criteria meet them at their boundary too
+		let special: Vec<TxLogEntry> = txs
+			.iter()
+			.filter(|t| {
+				matches!(
+					t.tx_type,
+					TxLogEntryType::TxSentCancelled | TxLogEntryType::TxReceivedCancelled | TxLogEntryType::TxReverted
+				)
+			})
+			.cloned()
+			.collect();
 		let pick_entry = |r: &mut crate::rng::SimRng| -> Option<TxLogEntry> {
 			if txs.is_empty() {
 				None
+			} else if !special.is_empty() && r.chance(1, 3) {
+				Some(special[r.idx(special.len())].clone())
 			} else {
 				Some(txs[r.idx(txs.len())].clone())
 			}
@@ -206,7 +225,8 @@ impl C19 {
 				_ => v,
 			}
 		};
-		let p_field = 1 + r.below(3); // each field present with probability 1/(1+p)
+		// each field present with probability 1/(1+p): sparse queries isolate a criterion
+		let p_field = *r.pick(&[1u64, 2, 3, 6]);
 		if let Some(t) = pick_entry(r) {
 			if r.below(p_field + 1) == 0 {
 				q["min_id"] = json!(std::cmp::max(0, around(r, t.id as i128)) as u32);
@@ -367,6 +387,25 @@ impl Prop for C19 {
 	}
 
 	fn next(&mut self, run: &mut Run) -> Option<Step> {
+		if let Some(s) = self.queue.pop() {
+			return Some(s);
+		}
+		// the log should hold the rarer entry kinds too: a send that is reserved and
+		// then cancelled leaves a cancelled sent entry with its amounts
+		if self.gen.setup_done && self.cancelled_sends_left > 0 && run.rng.chance(1, 6) && run.ex.world.wallets.len() > 0 {
+			let w = run.rng.idx(run.ex.world.wallets.len());
+			if run.ex.world.is_open(w) && !run.ex.world.chain.is_down() {
+				self.cancelled_sends_left -= 1;
+				let m = run.ex.msgs.len();
+				let mut a = self.gen.send_args(run, w);
+				a.late_lock = false;
+				a.estimate = false;
+				a.src_acct = None;
+				self.queue.push(Step::new(Op::Cancel { w, m: Some(m), id: None }));
+				self.queue.push(Step::new(Op::Lock { w, m }));
+				return Some(Step::new(Op::InitSend { w, args: a }));
+			}
+		}
 		if self.gen.setup_done && run.ex.world.wallets.len() > 0 && run.rng.chance(1, 2) {
 			let w = run.rng.idx(run.ex.world.wallets.len());
 			if run.ex.world.is_open(w) {
@@ -401,6 +440,12 @@ impl Prop for C19 {
 	fn after(&mut self, run: &mut Run, step: &Step, out: &StepOut) -> Vec<Violation> {
 		let mut v = vec![];
 		self.gen.feedback(run, step, out);
+		if let Op::InitSend { .. } = &step.op {
+			if out.new_msg.is_none() {
+				// the scripted send did not start: drop its lock and cancel
+				self.queue.clear();
+			}
+		}
 		let (name, args) = match &step.op {
 			Op::Custom { name, args } => (name.clone(), args.clone()),
 			_ => return v,
@@ -496,6 +541,9 @@ impl Prop for C19 {
 				if other_accounts {
 					run.cov.probe("query_with_other_accounts_present");
 				}
+				if mine.iter().any(|t| t.tx_type == TxLogEntryType::TxSentCancelled) {
+					run.cov.probe("query_over_log_with_cancelled_sent_entry");
+				}
 				// forbidden entries
 				for id in &got_ids {
 					let vd = verdicts.iter().find(|x| x.0 == *id).map(|x| x.1);
@@ -547,6 +595,44 @@ impl Prop for C19 {
 							));
 							return v;
 						}
+					}
+				}
+				// the amount criteria may be read as signed (credited - debited, the
+				// documentation) or as the transaction's total (the implementation, for
+				// sent entries); whichever reading the wallet applies, it applies the same
+				// one to every entry
+				if !cut && (q.min_amount.is_some() || q.max_amount.is_some()) {
+					let mut rest = args["q"].clone();
+					if let Some(o) = rest.as_object_mut() {
+						o.remove("min_amount");
+						o.remove("max_amount");
+					}
+					let q_rest = Self::to_query(&rest);
+					for t in &mine {
+						let signed = t.amount_credited as i128 - t.amount_debited as i128;
+						if signed >= 0 || matches(t, &q_rest) != Tri::Yes {
+							continue;
+						}
+						let ok = |x: i128| {
+							q.min_amount.map(|v| x >= v as i128).unwrap_or(true)
+								&& q.max_amount.map(|v| x <= v as i128).unwrap_or(true)
+						};
+						let (s_ok, m_ok) = (ok(signed), ok(-signed));
+						if s_ok == m_ok {
+							continue;
+						}
+						let included = got_ids.contains(&t.id);
+						let reading = if included == m_ok { "total" } else { "signed" };
+						run.cov.probe(&format!("amount_bounds_discriminate_readings:{:?}", t.tx_type));
+						self.amount_readings.insert(reading.to_owned(), format!("{:?} entry {} of query {}", t.tx_type, t.id, args["q"]));
+					}
+					if self.amount_readings.len() > 1 {
+						v.push(run.viol(
+							"filter_exact",
+							"amount_criteria_read_differently_for_different_entries",
+							format!("wallet {}: the amount bounds were applied as {:?}", w, self.amount_readings),
+						));
+						return v;
 					}
 				}
 				// order
